@@ -133,6 +133,18 @@ def y_scripts(seed, count, reentrant):
         xid = "y%s%d" % ("r" if reentrant else "p", n)
         steps = []
         nsub = 0    # subscribes issued so far (an upper bound of the ids handed out by the test itself)
+        if n % 4 == 2:
+            # a long-lived Subject: dozens of subscriptions have come and gone (ids past 32 and 64) while one early observer stays
+            steps.append(("Subscribe", "h4", "", 0, []))
+            nsub += 1
+            for _ in range(rnd.randrange(30, 75)):
+                hb = rnd.choice(["h1", "h2", "h3"])
+                steps.append(("Subscribe", hb, "", 0, []))
+                nsub += 1
+                if rnd.random() < 0.15:
+                    steps.append(("Notify", "", "", rnd.randrange(1, 4), []))
+                steps.append((rnd.choice(["UnsubH", "UnsubS"]), hb, "", 0, []))
+            steps.append(("Notify", "", "", rnd.randrange(1, 4), []))
         for _ in range(rnd.randrange(20, 100)):
             r = rnd.random()
             h = rnd.choice(hs)
@@ -165,7 +177,7 @@ def y_scripts(seed, count, reentrant):
             else:
                 steps.append(("Notify", "", "", rnd.randrange(1, 4), []))
         usub = 1 if (not reentrant and n % 4 == 1) else 0   # every fourth plain history: handles are USubscriptions
-        lines.append("X %s sig=%s maxsubs=40 filter=1 usub=%d" % (xid, sig, usub))
+        lines.append("X %s sig=%s maxsubs=120 filter=1 usub=%d" % (xid, sig, usub))
         for op, h, h2, a, sc in steps:
             if op in ("Subscribe", "SubscribeMuted"):
                 lines.append("S op=%s h=%s sc=%s" % (op, h, sc_str(sc)))
